@@ -72,8 +72,8 @@ class Closure:
 
 
 class Partial:
-    def __init__(self, fn, args, kwargs):
-        self.fn, self.args, self.kwargs = fn, list(args), dict(kwargs)
+    def __init__(self, fn, args, kwargs, starmaps=()):
+        self.fn, self.args, self.kwargs, self.starmaps = fn, list(args), dict(kwargs), list(starmaps)
 
     def __repr__(self):
         return f'<partial {self.fn}>'
@@ -418,6 +418,9 @@ class Interp:
             m = self.models.obj_attr(self, obj, name)
             if m is not None:
                 return m[0]
+            if ci is None:
+                # a library / built-in object whose attribute has no model: undecided, never an AttributeError
+                raise Unsupported(f'no model for {obj.cls}.{name}')
             self.raise_builtin('AttributeError', f'{obj!r}.{name}')
         if isinstance(obj, ClsRef):
             if isinstance(obj.info, ClassInfo):
@@ -547,6 +550,10 @@ class Interp:
     # ==================================================================================
     def call_value(self, fn, ca):
         st = self.st
+        awaited, self.current_call_awaited = self.current_call_awaited, False
+        if isinstance(fn, SymV):
+            self.current_call_awaited = awaited     # only calls into user code consume the flag
+            return self.models.unknown_call(self, fn, ca)
         if isinstance(fn, BoundMethod):
             return self.call_function(fn.finfo, fn.self_val, ca)
         if isinstance(fn, Function):
@@ -556,7 +563,7 @@ class Interp:
         if isinstance(fn, Partial):
             kw = dict(fn.kwargs)
             kw.update(ca.kwargs)
-            return self.call_value(fn.fn, CallArgs(fn.args + ca.args, kw, ca.starmaps))
+            return self.call_value(fn.fn, CallArgs(fn.args + ca.args, kw, fn.starmaps + ca.starmaps))
         if isinstance(fn, LibFn):
             return fn.impl(self, ca)
         if isinstance(fn, ClsRef):
@@ -1109,8 +1116,16 @@ class Interp:
             return LibFn('logger.call', lambda it, ca: None)
         return self.get_attr(obj, e.attr, env)
 
+    await_target = None
+    current_call_awaited = False
+
     def ex_Await(self, e, env):
-        v = self.eval(e.value, env)
+        saved = self.await_target
+        self.await_target = e.value
+        try:
+            v = self.eval(e.value, env)
+        finally:
+            self.await_target = saved
         return self.await_value(v)
 
     def ex_Call(self, e, env):
@@ -1151,6 +1166,7 @@ class Interp:
                     raise Unsupported(f'** of {v!r}')
             else:
                 kwargs[k.arg] = self.eval(k.value, env)
+        self.current_call_awaited = (e is self.await_target)
         return self.call_value(fn, CallArgs(args, kwargs, starmaps))
 
     def ex_Lambda(self, e, env):
